@@ -52,6 +52,38 @@ theorem dependency_in_earlier_layer (g : G) (j : Nat) (layer : List P) (s d : P)
       generations_dep_earlier g.edges g.nodes.length g.nodes j raw s d hgen hs' he hd
     exact ⟨i, sortPaths l', hi, by rw [graph_layer, hl']; rfl, (sortPaths_mem l' d).mpr hdl'⟩
 
+/-- **Every step of a valid step graph is in the execution layers** (completeness of the layering): a
+legacy deriver in its own layer, a flow step in one of the generations.  Together with `step_in_one_layer` a
+flow step of an acyclic graph is in exactly one layer, so a step phase (`phase_runs_each_step_once`) runs every
+registered step exactly once. -/
+theorem every_step_layered (g : G) (hv : valid g = true) :
+    (∀ s ∈ g.sequential, [s] ∈ layers g) ∧
+    (∀ n ∈ g.nodes, ∃ layer ∈ layers g, n ∈ layer) := by
+  constructor
+  · intro s hs
+    rw [sequential_first]
+    exact List.mem_append_left _ (List.mem_map.mpr ⟨s, hs, rfl⟩)
+  · intro n hn
+    have hdag : isDag g = true := by
+      unfold valid at hv
+      simp only [Bool.and_eq_true] at hv
+      exact hv.1
+    unfold isDag at hdag
+    have hsum : ((generations g.edges g.nodes.length g.nodes).map List.length).sum = g.nodes.length := by
+      simpa using hdag
+    obtain ⟨layer, hl, hnl⟩ := generations_cover g.edges g.nodes.length g.nodes hsum n hn
+    refine ⟨sortPaths layer, ?_, (sortPaths_mem layer n).mpr hnl⟩
+    rw [sequential_first]
+    exact List.mem_append_right _ (List.mem_map.mpr ⟨layer, hl, rfl⟩)
+
+/-- non-vacuity: the diamond `a → b, a → c, b → d, c → d` plus a deriver `e` is valid, and all five are layered -/
+example :
+    ((add empty ["a"] []).bind fun g => (add g ["b"] [["a"]]).bind fun g => (add g ["c"] [["a"]]).bind
+      fun g => (add g ["d"] [["b"], ["c"]]).bind fun g => addSequential g ["e"]).map
+      (fun g => (valid g, layers g)) =
+    some (true, [[["e"]], [["a"]], [["b"], ["c"]], [["d"]]]) := by decide
+
+
 /-- **At most one layer per step**: a graph step is in at most one graph layer. -/
 theorem step_in_one_layer (g : G) (i j : Nat) (li lj : List P) (x : P)
     (hi : (layers g)[g.sequential.length + i]? = some li)
